@@ -558,6 +558,10 @@ func TestVerifWorker(t *testing.T) {
 		fmt.Fprintf(os.Stderr, "unknown engine %q\n", name)
 		os.Exit(2)
 	}
+	// Unbounded recursion in the code under test should end in the runtime's
+	// stack-overflow abort (which the orchestrator reports against the seed)
+	// after 128 MiB of stack rather than the default 1 GiB.
+	debug.SetMaxStack(128 << 20)
 	tier := os.Getenv("VERIF_TIER")
 	if tier == "" {
 		tier = "quick"
